@@ -156,9 +156,13 @@ def run(ctx):
     for t in texts.values():
         t[1].clear()
     nlives = len(lives)
+    # the schedule of one event loop is not an input either: calls in flight together give the results of some serial order (spec/OneLoop.tla)
+    from drivers import oneloop
+    ol_failures, ol_cases = oneloop.run_oneloop(ctx, kinds={"content_n", "setB_n", "setC_n", "delC_n", "dry_n"})
+    failures.extend(ol_failures)
     ctx.details["lives"] = {t: sum(1 for lv in lives if lv["tag"] == t) for t in sorted({lv["tag"] for lv in lives})}
     return engine.report(
-        ctx, failures=failures, matchers=MATCHERS, evaluations=len(records), distinct_nontrivial=len(records) - len(calls),
+        ctx, failures=failures, matchers=MATCHERS, evaluations=len(records) + ol_cases, distinct_nontrivial=len(records) - len(calls),
         rule="cases = process lives: the baseline life (seed 0, directory A, C.UTF-8, sequential, canonical order), one fresh process per "
              "call, one life per single-axis change (hash seeds 1 / 4242 / random twice, directory B with decoy schema files, locales C / "
              "POSIX / LANG only, asyncio.gather, thread pool twice), every order of the grammar calls and of the schema-validation calls "
@@ -167,9 +171,12 @@ def run(ctx):
         samples=[{"call": records[k]["call"], "life": {kk: records[k][kk] for kk in ("seed", "cwd", "loc", "mode")}, "served_before": len(records[k]["hist"]),
                   "parts": [p["k"] for p in records[k]["parts"]][:8]} for k in (1, len(records) // 2, len(records) - 1)],
         exhaustive=False,
-        descr=lambda fl, clause: "call=%s life=%s position=%d diff=%s" % (fl["case"]["call"], json.dumps(fl["case"]["life"], sort_keys=True), fl["case"]["position"],
+        descr=lambda fl, clause: ("one_loop=%s observed=%s" % (json.dumps(fl["case"]["one_loop"]), json.dumps(fl["obs"])[:300])) if "one_loop" in fl["case"]
+        else "call=%s life=%s position=%d diff=%s" % (fl["case"]["call"], json.dumps(fl["case"]["life"], sort_keys=True), fl["case"]["position"],
                                                                             json.dumps(fl["obs"].get(clause.split(":", 1)[1], {}), ensure_ascii=True)[:400]),
-        assumptions=["compared byte for byte after masking: the scratch directory and target paths given to the call (arguments), and the "
+        assumptions=["one loop: write calls started together with asyncio.gather on one loop (bounded rendezvous at os.replace) must give the results and "
+                     "final file of some serial order of the same calls",
+                     "compared byte for byte after masking: the scratch directory and target paths given to the call (arguments), and the "
                      "value of keys named timestamp (routing entries)",
                      "a write call's target file is removed before the call (the file system state is part of the call's arguments)",
                      "CLI commands run through click's CliRunner, which swaps sys.stdout: they are served between the concurrent batches, "
